@@ -167,98 +167,110 @@ def shard(ctx):
     nsets = int(ctx.params.get("nsets", 8))
     tasks = [(info, pidx) for pidx in range(P) for info in host]
     mine = [t for j, t in enumerate(tasks) if j % ctx.nshards == ctx.shard]
-    for info, pidx in mine:
-        key = f"instr|{info.name}|"
+    batch_n = int(ctx.params.get("batch", 8))
+    for b0 in range(0, len(mine), batch_n):
+        chunk = mine[b0 : b0 + batch_n]
         if ctx.out_of_time():
-            ctx.stat(key + "status|budget")
-            ctx.inconclusive("budget")
+            for info, pidx in chunk:
+                ctx.stat(f"instr|{info.name}|status|budget")
+                ctx.inconclusive("budget")
             continue
-        # deterministic per (VERIF_SEED, instruction, placement): independent of the distribution over shards
-        rng = random.Random(f"{ctx.seed}:{info.name}:{pidx}")
-        try:
-            pl = W.gen_placement(info, rng, pidx)
-            src, meta = W.build_wrapper(info, pl, harness)
-        except W.Unwrappable as e:
-            ctx.stat(key + "status|unwrappable")
-            ctx.stat(key + "why|" + _sanitize(e))
-            continue
-        try:
-            mod = load_program(src, ctx.scratch, tag="c14")
-            proc = getattr(mod, meta["proc"])
-        except Exception as e:
-            # exo refuses the wrapper: either the generator is wrong or exo is conservative; never a violation
-            ctx.stat(key + "status|exo_reject")
-            ctx.stat(key + "why|" + _sanitize(f"{type(e).__name__}: {e}"))
-            continue
-        ins = W.gen_inputs(info, meta, rng, nsets)
-        specs = [x[0] for x in ins]
-        r = W.execute(proc, specs, ctx.scratch / f"b_{info.name}_{pidx}")
-        ctx.stat("builds", r.builds)
-        ctx.stat(key + "status|" + r.status)
-        if r.unclean:
-            ctx.stat(key + "unclean_inputs", r.unclean)
-            ctx.stat("unclean_inputs", r.unclean)
-        if r.status in ("exo_reject", "no_input", "driver_error", "timeout"):
-            ctx.stat(key + "why|" + _sanitize(r.detail))
-            if r.status == "timeout":
-                ctx.inconclusive("watchdog")
-            continue
-        verdicts = _judge(W, info, meta, harness, specs, r)
-        if any(v[0] == "harness" for v in verdicts):
-            ctx.stat(key + "status|harness_untrusted")
-            ctx.stat(key + "why|" + _sanitize(verdicts[-1][3]))
-            verdicts = [v for v in verdicts if v[0] != "harness"]
-            if not verdicts:
+        items = []
+        for info, pidx in chunk:
+            key = f"instr|{info.name}|"
+            # deterministic per (VERIF_SEED, instruction, placement): independent of the distribution over shards
+            rng = random.Random(f"{ctx.seed}:{info.name}:{pidx}")
+            try:
+                pl = W.gen_placement(info, rng, pidx)
+                src, meta = W.build_wrapper(info, pl, harness)
+            except W.Unwrappable as e:
+                ctx.stat(key + "status|unwrappable")
+                ctx.stat(key + "why|" + _sanitize(e))
                 continue
-        if r.ninputs:
-            ctx.stat(key + "placements")
-            ctx.stat(key + "inputs", r.ninputs)
-            ctx.stat(key + "exact", r.nexact)
-            ctx.stat("wrappers_compared")
-            ctx.stat("inputs_run", r.ninputs)
-            ctx.stat("inputs_exact_class", r.nexact)
-            ctx.stat("evaluations", r.ninputs)
-            if info.ctl_domain and any(a.kind == "ctl" for a in info.args):
-                for (sp, tags) in ins:
-                    for c, v in tags["ctl"].items():
-                        ctx.stat(key + f"ctl|{c}={v}")
-            for k in range(len(specs)):
-                ctx.distinct(common.jhash([info.name, pl, specs[k].to_json()]), nontrivial=True)
-        if r.napprox_mismatch:
-            ctx.stat(key + "approx_mismatch", r.napprox_mismatch)
-            ctx.stat("approx_mismatch", r.napprox_mismatch)
-        for kind, extra, k, detail in verdicts:
-            sig = _sig(info.name, info.feature, kind, extra)
-            case = {
-                "instr": info.name,
-                "line": info.line,
-                "c_instr": info.c_instr,
-                "wrapper": src,
-                "proc": meta["proc"],
-                "call": meta["call"],
-                "placement": pl,
-                "wargs": _wargs_json(meta),
-                "kind": kind,
-                "inputs": [specs[k].to_json()] if k is not None else [s.to_json() for s in specs[:2]],
-                "detail": (detail or "")[:3000],
-            }
-            if kind == "mismatch":
-                case["where"] = W.where_hint(info, meta, specs[k], r.diffs[k])
-                ctx.stat("mismatches")
-            ctx.violation(sig, case)
-        ctx.sample(
-            {
-                "instr": info.name,
-                "placement": pidx,
-                "call": meta["call"],
-                "status": r.status,
-                "inputs": r.ninputs,
-                "exact": r.nexact,
-                "wrapper": src,
-                "first_input": specs[0].brief()[:300],
-            },
-            limit=1,
-        )
+            try:
+                mod = load_program(src, ctx.scratch, tag="c14")
+                proc = getattr(mod, meta["proc"])
+            except Exception as e:
+                # exo refuses the wrapper: either the generator is wrong or exo is conservative; never a violation
+                ctx.stat(key + "status|exo_reject")
+                ctx.stat(key + "why|" + _sanitize(f"{type(e).__name__}: {e}"))
+                continue
+            ins = W.gen_inputs(info, meta, rng, nsets)
+            prep = W.Prepared(proc, [x[0] for x in ins])
+            items.append((info, pidx, pl, src, meta, ins, prep))
+        nb = W.execute_batch([it[-1] for it in items], ctx.scratch / f"b{b0}")
+        ctx.stat("builds", nb)
+        for info, pidx, pl, src, meta, ins, prep in items:
+            _report(ctx, W, harness, info, pidx, pl, src, meta, ins, prep.res)
+
+
+def _report(ctx, W, harness, info, pidx, pl, src, meta, ins, r):
+    key = f"instr|{info.name}|"
+    specs = [x[0] for x in ins]
+    ctx.stat(key + "status|" + str(r.status))
+    if r.unclean:
+        ctx.stat(key + "unclean_inputs", r.unclean)
+        ctx.stat("unclean_inputs", r.unclean)
+    if r.status in ("exo_reject", "no_input", "driver_error", "timeout", None):
+        ctx.stat(key + "why|" + _sanitize(r.detail))
+        if r.status == "timeout":
+            ctx.inconclusive("watchdog")
+        return
+    verdicts = _judge(W, info, meta, harness, specs, r)
+    if any(v[0] == "harness" for v in verdicts):
+        ctx.stat(key + "status|harness_untrusted")
+        ctx.stat(key + "why|" + _sanitize([v for v in verdicts if v[0] == "harness"][0][3]))
+        verdicts = [v for v in verdicts if v[0] != "harness"]
+        if not verdicts:
+            return
+    if r.ninputs:
+        ctx.stat(key + "placements")
+        ctx.stat(key + "inputs", r.ninputs)
+        ctx.stat(key + "exact", r.nexact)
+        ctx.stat("wrappers_compared")
+        ctx.stat("inputs_run", r.ninputs)
+        ctx.stat("inputs_exact_class", r.nexact)
+        ctx.stat("evaluations", r.ninputs)
+        for sp, tags in ins:
+            for c, v in tags["ctl"].items():
+                ctx.stat(key + f"ctl|{c}={v}")
+        for k in range(len(specs)):
+            ctx.distinct(common.jhash([info.name, pl, specs[k].to_json()]), nontrivial=True)
+    if r.napprox_mismatch:
+        ctx.stat(key + "approx_mismatch", r.napprox_mismatch)
+        ctx.stat("approx_mismatch", r.napprox_mismatch)
+    for kind, extra, k, detail in verdicts:
+        sig = _sig(info.name, info.feature, kind, extra)
+        case = {
+            "instr": info.name,
+            "line": info.line,
+            "c_instr": info.c_instr,
+            "wrapper": src,
+            "proc": meta["proc"],
+            "call": meta["call"],
+            "placement": pl,
+            "wargs": _wargs_json(meta),
+            "kind": kind,
+            "inputs": [specs[k].to_json()] if k is not None else [s.to_json() for s in specs[:2]],
+            "detail": (detail or "")[:3000],
+        }
+        if kind == "mismatch":
+            case["where"] = W.where_hint(info, meta, specs[k], r.diffs[k])
+            ctx.stat("mismatches")
+        ctx.violation(sig, case)
+    ctx.sample(
+        {
+            "instr": info.name,
+            "placement": pidx,
+            "call": meta["call"],
+            "status": r.status,
+            "inputs": r.ninputs,
+            "exact": r.nexact,
+            "wrapper": src,
+            "first_input": specs[0].brief()[:300],
+        },
+        limit=1,
+    )
 
 
 # ----------------------------------------------------------------------------
